@@ -13,25 +13,35 @@ from vlib.core import sx, q
 
 PROP = "C14"
 MODE = "multi"
-RULE = ("for each of 19 element universes of 4-5 values (f64, f64 with +0/-0, f32, u8, u64, i8, i64, r64, string, bool, "
+RULE = ("for each of 20 element universes of 2-5 values (f64, f64 with +0/-0, f32, u8, u64, i8, i64, r64 incl. an unreduced spelling, string, bool, "
         "(f64,f64), (f64,string), (u8,bool), tuples with +0/-0, sets of f64 / u8 / string / tuples, sets of f64 in permuted orders, "
-        "sets with +0/-0): all 16x16 (quick: a 120-pair sample per universe incl. all pairs of the f64 universe) pairs of subsets, each written "
-        "as a sequence of <= 6 elements in a random insertion order with random repetitions, under every operator "
-        "(union, intersection, difference, symmetric difference, subset, proper subset, superset, proper superset; thorough: all 8 "
-        "per pair, quick: 2 rotating), membership / non-membership of every universe value; sets built by literal, variable, "
-        "typed matrix conversion and identity comprehension; comprehensions of 22 shapes (1-2 generators over sets / matrices, "
-        "variable / tuple / wildcard / repeated-variable patterns, 0-2 filters with == != < > <= >= against constants and between "
-        "variables, outputs x, y, (x,y), (y,x), constants); operands of different kinds; mixed-kind literals. "
+        "sets with +0/-0): pairs of subsets of a 4-value universe (thorough: all 16x16 pairs under all 8 operators, twice; quick: all 256 pairs of the "
+        "f64 universe and a sample of 40 / 20 / 12 / 6 pairs for scalar / nested / hash-mismatching / depth-3 universes, 2 rotating operators each), "
+        "each operand written as a sequence of <= 6 elements (<= 5 / 3 for nested kinds in quick: the parser is exponential in nesting depth) in a "
+        "random insertion order with random repetitions, under union, intersection, difference, symmetric difference, subset, proper subset, "
+        "superset, proper superset (both spellings); membership / non-membership of universe values in every subset; every subset built by "
+        "literal, through a variable, by typed matrix conversion and by identity comprehension over a set / a matrix; all 24 orders of 4 elements for "
+        "5 kinds; sets whose literal lists variables; comprehensions of 22 shapes (1-2 generators over sets / inline sets / matrices; "
+        "variable, tuple, wildcard and repeated-variable patterns; 0-2 filters with == != < > <= >= against constants and between variables, "
+        "also between the generators; outputs x, y, (x,y), (y,x), (x,x), constants); operands of different kinds; mixed-kind literals. "
         "non-trivial = distinct case whose verdict is not kind-error")
 ASSUMPTIONS = [
     "the case carries element values (f64 bit patterns, reduced rationals); that the spelling in the source denotes that value is C13's subject "
     "(only short dyadic floats, small integers and small fractions are used)",
-    "filters of comprehensions are restricted to comparisons on scalar kinds that the `==`/`<` machines define (numbers, strings and bools for ==/!=)",
-    "error kinds/messages are not compared (one Err token); NaN elements are not generated",
+    "filters of comprehensions are restricted to comparisons on scalar kinds that the `==`/`<` machines define (numbers; strings and bools for ==/!=); "
+    "comprehensions are only generated over inputs on which Hash and == agree",
+    "error kinds/messages are not compared (one Err token); NaN elements are not generated; a set literal mixes variables and literals never "
+    "(`a := 1; {a, 2}` is rejected with SetKindMismatch: reported, not judged)",
+    "programs on which Value's Hash and == disagree are run 4 (thorough: 6) times in fresh interpreters: IndexSet's hasher is randomly keyed, "
+    "so the defective result is the predicted one only with p ~ 0.95-0.99 per run; the judge answers (kf id) iff the case is in the class and at "
+    "least one run equals the faithful model's prediction exactly (elements, order, kind text, size), (ok) iff every run satisfies the property",
 ]
 TRIVIAL_TAGS = ["kind-error"]
 STALL = 60.0
-RUNS = 3          # runs of a program on which Hash and == are known to disagree
+# Runs of a program on which Hash and == are known to disagree.  Every IndexSet is keyed randomly and two
+# different hashes still share hashbrown's 7-bit tag with p = 1/128 (measured: 22 of 3000 runs of `{0.0, -0.0}`
+# return one element), so a single run shows the predicted defective result only with p ~ 0.95-0.99.
+RUNS = 4
 
 # ---------------------------------------------------------------- values
 def F(x): return ("flt", "f64", float(x))
@@ -362,7 +372,9 @@ DEPTH = {"tuple-f64": 2, "tuple-f64-string": 2, "tuple-u8-bool": 2, "tuple-zero"
 
 
 def generate(tier, rng):
+    global RUNS
     quick = tier == "quick"
+    RUNS = 4 if quick else 6
     allops = [o for o, _ in SETOPS + RELOPS]
     rot = 0
     for uname, (vals, mism) in UNIVERSES.items():
@@ -380,7 +392,7 @@ def generate(tier, rng):
         # --- operators and relations on pairs of subsets ---
         pairs = [(a, b) for a in subs for b in subs]
         if quick and uname != "f64":
-            pairs = rng.sample(pairs, min(len(pairs), {1: 60, 2: (16 if mism else 24), 3: 6}[depth]))
+            pairs = rng.sample(pairs, min(len(pairs), {1: 40, 2: (12 if mism else 20), 3: 6}[depth]))
         for (a, b) in pairs:
             if quick:
                 ops = [allops[rot % 8], allops[(rot + 3) % 8]]
@@ -397,7 +409,7 @@ def generate(tier, rng):
                 yield mem_case(uname, x, written(s, rng, maxlen), rng.random() < 0.4, rng, mism)
         # --- comprehensions (inputs on which hash and == agree only) ---
         if not mism and depth < 3:
-            for c in comp_cases(uname, vals[:4], rng, (3 if depth == 1 else 1) if quick else 30, maxlen - 1 if depth > 1 else maxlen):
+            for c in comp_cases(uname, vals[:4], rng, (2 if depth == 1 else 1) if quick else 30, maxlen - 1 if depth > 1 else maxlen):
                 yield c
 
     # --- same set, many insertion orders: the result must be the same set ---
